@@ -64,7 +64,7 @@ PROPS = {
   "technique": "Coq structural induction over the step function + differential replay",
  },
  "C16": {
-  "tests": ["TestC16", "TestC16Concurrent", "TestC16Traced"],
+  "tests": ["TestC16", "TestC16Concurrent", "TestC16Traced", "TestC16TwoInstances"],
   "rule": "all six limit kinds x {plain, traced, windowed, traced(windowed)}, listeners registered at random points of the history, explicit SetLimit on the settable limit; "
           "non-trivial = a step that changed the reported estimate with at least one listener registered; distinct by (kind, wrapper, before, after, listener)",
   "level_text": "C16_step, C16_last_agrees, C16_suffix, C16_settable proved for every limit kind, wrapper and history.",
@@ -96,7 +96,7 @@ PROPS = {
   "traces_from": ["C01"],
  },
  "C02": {
-  "tests": ["TestC02", "TestC02Races", "TestC02Bare", "TestC01Panic"],
+  "tests": ["TestC02", "TestC02Races", "TestC02Bare", "TestC01Panic", "TestC01Stress"],
   "rule": "random histories of acquires, completions with the three outcomes, scripted estimate changes, partition adds/removes and virtual-time steps through the default limiter over "
           "all four strategy kinds, ending with a full drain and re-acquisition of the full limit; after every op gauge = busy = outstanding listeners; race-window replays (hand-off to a departed waiter, "
           "cancellation during the grant of the blocking limiter); non-trivial = a completed drain",
@@ -189,7 +189,7 @@ PROPS = {
   "technique": "Coq/Flocq monotonicity theorem + differential replay of twin runs",
  },
  "C20": {
-  "tests": ["TestC20", "TestC20Strategies", "TestC20Concurrent", "TestC20Registry", "TestC20Races", "TestC20Names"],
+  "tests": ["TestC20", "TestC20Strategies", "TestC20Concurrent", "TestC20Registry", "TestC20Races", "TestC20Names", "TestC20QueueGauges"],
   "rule": "all six limit kinds (plain, traced) on a recording registry: every sample's emissions (kind = how the metric was registered, name, value) are compared with the model and with the oracle; "
           "strategies' in-flight samples and limit gauges are checked by driving all four strategies through random acquire/release/SetLimit histories (including limits lowered below the tokens outstanding); the go-metrics registry is driven through random Start/Stop/Register/Tick sequences on a virtual clock "
           "and polls are counted per period; the datadog registry is exercised once over a loopback UDP socket in real time; non-trivial = a distinct sample emission / tick situation",
